@@ -10,10 +10,10 @@ git -C /repo worktree add -q --detach "$W" HEAD || exit 2
 export GOFLAGS=-mod=mod GOPROXY=off
 cd "$W"
 cp "$S/$DEMO" "$DEST/"
-go test -tags "$TAGS" -vet=off -count=1 -run "$RUN" "./$DEST/" > "$OUT/demo_without.txt" 2>&1; r0=$?
+${PREFIX:-} go test -tags "$TAGS" -vet=off -count=1 -run "$RUN" "./$DEST/" > "$OUT/demo_without.txt" 2>&1; r0=$?
 git apply "$S/patch.diff" || { echo "patch does not apply"; cd /; git -C /repo worktree remove --force "$W"; exit 2; }
 go build -tags default_build ./... > "$OUT/build.txt" 2>&1; rb=$?
-go test -tags "$TAGS" -vet=off -count=1 -run "$RUN" "./$DEST/" > "$OUT/demo_with.txt" 2>&1; r1=$?
+${PREFIX:-} go test -tags "$TAGS" -vet=off -count=1 -run "$RUN" "./$DEST/" > "$OUT/demo_with.txt" 2>&1; r1=$?
 rm -f "$DEST/$DEMO"
 go test -tags default_build -vet=off -count=1 -skip 'TestControllers|TestAPIs' "./$DEST/" > "$OUT/pkgtests_with.txt" 2>&1; rt=$?
 cd /verif && VERIF_REPO="$W" timeout 1800 ./check "$PROP" --tier quick > "$OUT/check_quick.txt" 2>&1; rc=$?
